@@ -367,6 +367,13 @@ def run_tie(prop, spec, tier, seed):
             b = rng.below(a + 1)
             ks[a], ks[b] = ks[b], ks[a]
         lines.append("run H,%s seed %d pts" % (",".join(ks), rng.next() % (1 << 40)))
+    # reader crowds: 17-40 readers queue up behind one writer and form ONE read entry that has to be granted together (a wake-up
+    # scheme that notifies per ticket, per slot or per batch of a fixed size shows here), sometimes with a writer behind them
+    nrc = 16 if tier == "quick" else 300
+    for i in range(nrc):
+        nr = rng.pick([17, 18, 20, 23, 24, 25, 31, 33, 40])
+        ks = ["R"] * nr + (["W"] if rng.chance(1, 3) else [])
+        lines.append("run H,%s seed %d pts" % (",".join(ks), rng.next() % (1 << 40)))
     # long-busy Resources: the main thread holds the write lock with the id counters at 2^bits - 3 (what 2^bits - 3 queued
     # requests since the last idle moment leave behind), the other threads queue up behind it and cross the boundary
     nwarp = 48 if tier == "quick" else 600
